@@ -104,6 +104,23 @@ def build_world(root, spec):
             W.membranes.append(build.load_membrane(root, m["dir"]))
     W.curve_sets = []
     for ref in spec.get("curve_sets", []):
+        if isinstance(ref, dict) and "replicate_of" in ref:
+            # two curves measured at ONE temperature (replicates): legal, and not what the loaders produce
+            src = W.curve_sets[ref["replicate_of"]]
+            c = src.diffusion_curves[0]
+            f = ref.get("factor", 1.03)
+            second = DiffusionCurve(
+                mixture=c.mixture, membrane_name=c.membrane_name, feed_temperature=c.feed_temperature,
+                feed_compositions=[Composition(p=x.p, type=x.type) for x in c.feed_compositions][: max(2, len(c.feed_compositions) - 1)],
+                partial_fluxes=[(fl[0] * f, fl[1] / f) for fl in c.partial_fluxes][: max(2, len(c.feed_compositions) - 1)],
+                permeate_temperature=c.permeate_temperature, permeate_pressure=c.permeate_pressure, comments="replicate")
+            first = DiffusionCurve(
+                mixture=c.mixture, membrane_name=c.membrane_name, feed_temperature=c.feed_temperature,
+                feed_compositions=list(c.feed_compositions), partial_fluxes=list(c.partial_fluxes),
+                permeate_temperature=c.permeate_temperature, permeate_pressure=c.permeate_pressure,
+                permeances=list(c.permeances), comments="replicate base")
+            W.curve_sets.append(DiffusionCurveSet(name=src.name + "_replicates", diffusion_curves=[first, second]))
+            continue
         if isinstance(ref, dict):
             src = W.curve_sets[ref["molar_copy_of"]]
             curves = []
@@ -157,9 +174,31 @@ def interpreter_state():
     never as a violation by itself: the verdict needs a later call whose outcome differs)."""
     import sys
     import warnings
-    return {"numpy.geterr": dict(sorted(numpy.geterr().items())), "recursionlimit": sys.getrecursionlimit(), "cwd": os.getcwd(),
-            "environ": cdigest(sorted(os.environ.items())), "warnings.filters": len(warnings.filters),
-            "numpy.printoptions": cdigest(canon({k: v for k, v in numpy.get_printoptions().items() if k != "formatter"}))}
+    out = {"numpy.geterr": dict(sorted(numpy.geterr().items())), "recursionlimit": sys.getrecursionlimit(), "cwd": os.getcwd(),
+           "environ": cdigest(sorted(os.environ.items())), "warnings.filters": len(warnings.filters),
+           "numpy.printoptions": cdigest(canon({k: v for k, v in numpy.get_printoptions().items() if k != "formatter"}))}
+    try:
+        import attr
+        out["attr.validators.disabled"] = bool(attr.validators.get_disabled())
+    except Exception:
+        pass
+    try:
+        import pandas._config.config as _pc
+        out["pandas.options"] = cdigest(canon(_pc._global_config))
+    except Exception:
+        pass
+    try:
+        import decimal
+        import locale
+        out["decimal.prec"] = decimal.getcontext().prec
+        out["locale"] = repr(locale.getlocale())
+        m = os.umask(0)
+        os.umask(m)
+        out["umask"] = m
+        out["float_repr_style"] = sys.float_repr_style
+    except Exception:
+        pass
+    return out
 
 
 def library_state():
@@ -417,6 +456,9 @@ class Executor:
             if op.get("grid"):
                 out["values"] = [[float(f(x, t)), float(g(x, t))] for (x, t) in op["grid"]]
             return out
+        if fn == "fn_new_call":
+            f = build.function(op["spec"])
+            return [f(x, t) for (x, t) in op["grid_args"]]
         if fn == "fn_from_array":
             return PervaporationFunction.from_array(array=a["array"], n=a["n"], m=a["m"])
         if fn == "make_curve":
